@@ -52,7 +52,10 @@ RULE = (
     "with independently permuted blank labels (disjoint or shared label pools) and insertion orders; half of the pairs are perturbed "
     "by a degree-preserving 2-switch, an edge move or a changed attribute, or pair two different structures of equal degree sequence; "
     "distinct by full case content; non-trivial = at least two blank nodes in each graph; suite canon: the same generator restricted "
-    "to <= 6 (quick) / <= 8 (thorough) blank nodes, observing the partition reached by _refine and the verdicts"
+    "to <= 6 (quick) / <= 8 (thorough) blank nodes, observing the partition reached by _refine (checked to be a partition whose classes "
+    "are unions of automorphism orbits; not compared with the model's, it depends on the order of hash values) and the verdicts; "
+    "deterministic sub-families of suite iso: the typed-neighbour shape once per predicate of urn:p0..p39, every ordered pair of "
+    "different terms with the same spelling; suite skolem: once per process a 5000-node chain through the external skolem branch"
 )
 
 # non-blank terms; falsy literals are always in play
